@@ -239,7 +239,7 @@ def merge_drop(ctx):
                                 good = True
             ctx.check(good, name + '/subtract', cb, 'kept entry clock = entry clock − other.clock',
                       'the witness clock of a kept entry is not reduced by other.clock (found %s): dots other has seen and removed stay as witnesses' % seen,
-                      line=line, props=[p for p in props if p not in ('C09',)])
+                      line=line, props=props)
         # ---------------- theirs-only
         name = inst + '/theirs-only'
         ins = []
@@ -336,7 +336,7 @@ def merge_drop(ctx):
                 good = True
         ctx.check(good, name + '/subtract', body, 'adopted entry clock = entry clock − self.clock (pre-merge)',
                   'the witness clock of an adopted entry is not reduced by the pre-merge self.clock (found %s)' % seen,
-                  line=line, props=[p for p in props if p != 'C09'])
+                  line=line, props=props)
 
 
 # ---------------------------------------------------------------- both-present branch
